@@ -20,4 +20,6 @@ for name in sorted(os.listdir(root)):
     files = ", ".join(os.path.basename(f) for f in d.get("files_touched", []))
     rc, sig = sweep.get(name, ("?", ""))
     verdict = {"1": "caught", "0": "MISSED", "2": "n/a"}.get(rc, rc)
+    if rc == "1" and not sig:
+        sig = "(replay of a regression input in corpus/%s)" % name.split("-")[0]
     print("| %s | %s | %s | %s | `%s` |" % (name, summ, files, verdict, sig.replace("|", "/")))
